@@ -1,6 +1,7 @@
 package props
 
 import (
+	"context"
 	"fmt"
 	"net/http"
 	"net/url"
@@ -11,9 +12,11 @@ import (
 	"google.golang.org/grpc/status"
 	"google.golang.org/protobuf/encoding/protojson"
 	"google.golang.org/protobuf/proto"
+	"google.golang.org/protobuf/reflect/protoreflect"
 
 	"larking.io/larking"
 
+	"verif/dyn"
 	"verif/env"
 	"verif/explore"
 	"verif/ref/wire"
@@ -224,6 +227,91 @@ func (e *c20Env) exec(tc *c20Case) (oracle, note string) {
 	return "", "same-unserved"
 }
 
+// c20AfterNewServer: the server is built first; services are registered on the mux (and a
+// connection is dropped) afterwards. The mounts are views of the live mux: what the bare mux
+// serves now is what every prefix serves now.
+func c20AfterNewServer(c *Ctx) {
+	r := c.Run
+	t, err := newTSchema()
+	if err != nil {
+		panic(err)
+	}
+	bw := newBWorld()
+	for _, pats := range [][]string{{"/", "/api"}, {"/api/", "/twirp"}, {"/api/v2", "/"}, {"/pfx/"}} {
+		m, err := larking.NewMux(t.opts...)
+		if err != nil {
+			panic(err)
+		}
+		srv, err := larking.NewServer(m, larking.MuxHandleOption(pats...))
+		if err != nil {
+			panic(err)
+		}
+		h := srv.Handler
+		impl := &tImpl{t: t}
+		be := bw.newBackend("b1", []protoreflect.FileDescriptor{bw.f1}, []string{"vb.S1"})
+		steps := []struct {
+			name string
+			do   func() error
+		}{
+			{"nothing registered yet", func() error { return nil }},
+			{"RegisterService(vs.T) after NewServer", func() error { return m.VerifRegisterService(t.gsd, dyn.NewServer(impl)) }},
+			{"RegisterConn(b1:S1) after NewServer", func() error { return m.RegisterConn(context.Background(), be.Conn()) }},
+			{"DropConn(b1) after NewServer", func() error {
+				if !m.DropConn(context.Background(), be.Conn()) {
+					return fmt.Errorf("DropConn returned false")
+				}
+				return nil
+			}},
+		}
+		for _, st := range steps {
+			if err := st.do(); err != nil {
+				r.Violation(report.Violation{Oracle: "harness", Key: "after-newserver " + st.name, Case: map[string]any{"patterns": pats}, Note: err.Error()})
+				break
+			}
+			for _, pat := range pats {
+				prefix := strings.TrimSuffix(pat, "/")
+				for _, pr := range []struct{ verb, path, ct, body string }{
+					{"GET", "/t/unary/x", "", ""},
+					{"POST", "/vs.T/Unary", "application/json", "{}"},
+					{"GET", "/s1/x", "", ""},
+					{"POST", "/vb.S1/M2", "application/json", "{}"},
+					{"POST", "/vs.T/Unary", "application/grpc-web+proto", "\x00\x00\x00\x00\x00"},
+				} {
+					mk := func(path string) *http.Request {
+						hdr := http.Header{}
+						if pr.ct != "" {
+							hdr.Set("Content-Type", pr.ct)
+						}
+						rd := env.NewReader(env.Script{Data: []byte(pr.body)})
+						return &http.Request{Method: pr.verb, URL: &url.URL{Path: path}, Header: hdr, Proto: "HTTP/1.1", ProtoMajor: 1, ProtoMinor: 1, Host: "verif.test",
+							Body: rd, ContentLength: int64(len(pr.body)), RemoteAddr: "192.0.2.1:1", RequestURI: path}
+					}
+					impl.reset(hScript{RecvN: -1, Replies: []proto.Message{t.newRsp("", []byte{7}, 0)}})
+					got := serveReq(h, mk(prefix+pr.path))
+					gotCalls := impl.log.Calls
+					impl.reset(hScript{RecvN: -1, Replies: []proto.Message{t.newRsp("", []byte{7}, 0)}})
+					want := serveReq(m, mk(pr.path))
+					r.Eval(1)
+					key := fmt.Sprintf("after-newserver patterns=%v step=%q %s %s%s", pats, st.name, pr.verb, prefix, pr.path)
+					cs := map[string]any{"kind": "after-newserver", "patterns": pats, "step": st.name, "request": pr.verb + " " + prefix + pr.path}
+					switch {
+					case got.Panicked || want.Panicked:
+						r.Violation(report.Violation{Oracle: "panic", Key: "panic " + key, Case: cs, Note: got.Panic + want.Panic})
+					case gotCalls != impl.log.Calls || c20Obs(got) != c20Obs(want):
+						r.Outcome("FAIL:mount-differs")
+						r.Violation(report.Violation{Oracle: "mount-differs", Key: "mount-differs " + key, Case: cs,
+							Note: fmt.Sprintf("after %s: via the server %s ; the bare mux answers %s%s with %s", st.name, truncS(c20Obs(got), 200), "", pr.path, truncS(c20Obs(want), 200))})
+					default:
+						r.Outcome("after-newserver:same")
+					}
+				}
+			}
+		}
+		be.Conn().Close()
+		r.Distinct(fmt.Sprintf("after-newserver|%v", pats))
+	}
+}
+
 func c20PatternSets(maxLen int) [][]string {
 	out := [][]string{nil}
 	n := len(c20AllPatterns)
@@ -292,7 +380,7 @@ func c20Cases(thorough bool) []c20Case {
 
 func runC20(c *Ctx) {
 	r := c.Run
-	r.Rule("every set of <= 3 (thorough: <= 5) mount patterns from {/, /api, /api/, /pfx/, /twirp, /api/v2, /t, /vs.T/} (plus the default; the last two coincide with the first segment of the mux's own routes) that http.ServeMux accepts × extra handlers {none, /extra, /api/extra/, /extra + /pfx/sub/} × request prefix {none, each mount, /other, /apix, /API} × inner path {rule route, rule route with variable, implicit route, unmatched, trailing slash variants, unknown method, /, and paths in which the prefix text occurs again: prefix+route, route+prefix, prefix inside the route, doubled prefix} × protocol {GET, POST json, Twirp, gRPC, gRPC-web} × handler {ok, NotFound}; the response through NewServer's handler is compared with the bare mux on the stripped path; distinct = all case parameters")
+	r.Rule("every set of <= 3 (thorough: <= 5) mount patterns from {/, /api, /api/, /pfx/, /twirp, /api/v2, /t, /vs.T/} (plus the default; the last two coincide with the first segment of the mux's own routes) that http.ServeMux accepts × extra handlers {none, /extra, /api/extra/, /extra + /pfx/sub/} × request prefix {none, each mount, /other, /apix, /API} × inner path {rule route, rule route with variable, implicit route, unmatched, trailing slash variants, unknown method, /, and paths in which the prefix text occurs again: prefix+route, route+prefix, prefix inside the route, doubled prefix} × protocol {GET, POST json, Twirp, gRPC, gRPC-web} × handler {ok, NotFound}; the response through NewServer's handler is compared with the bare mux on the stripped path; plus histories in which services are registered (RegisterService, RegisterConn) and a connection is dropped AFTER NewServer, each step compared under every mount; distinct = all case parameters")
 	r.Assume("unclean paths ('//', '.', '..') and the bare prefix without a trailing slash are redirected by http.ServeMux and not demanded", "pattern sets that http.ServeMux rejects (both /api and /api/) are skipped")
 	cases := c20Cases(c.Thorough())
 	envs := make([]*c20Env, explore.Workers)
@@ -327,6 +415,7 @@ func runC20(c *Ctx) {
 			r.Sample(*tc)
 		}
 	})
+	c20AfterNewServer(c)
 }
 
 func contains(ss []string, s string) bool {
@@ -339,6 +428,16 @@ func contains(ss []string, s string) bool {
 }
 
 func replayC20(c *Ctx, v report.Violation) {
+	if strings.Contains(v.Key, "after-newserver") {
+		sub := *c
+		sub.Run = report.NewRun("C20", "quick", 0, "exploration")
+		c20AfterNewServer(&sub)
+		fmt.Printf("replay: after-newserver family re-run -> %d violations\n", sub.Run.NumViolations())
+		if sub.Run.NumViolations() > 0 {
+			c.Run.Violation(report.Violation{Oracle: v.Oracle, Key: v.Key, Case: v.Case, Note: "still violated"})
+		}
+		return
+	}
 	var tc c20Case
 	if !remarshal(v.Case, &tc) {
 		fmt.Println("replay: cannot decode case")
